@@ -186,11 +186,16 @@ def ground_truth(lib, folder, model):
     return None
 
 
+_VALIDATE_CALLS = [0]
+
+
 def validate_outcome(lib, folder):
     cont = lib.Container(folder)
+    _VALIDATE_CALLS[0] += 1
     try:
         try:
-            res = cont.validate()
+            # every fourth call passes a progress callback (validation then also counts the rows of every pack)
+            res = cont.validate(callback=(lambda action, value: None) if _VALIDATE_CALLS[0] % 4 == 0 else None)
         except Exception as exc:  # pylint: disable=broad-except
             return 'raised:' + type(exc).__name__
         return 'clean' if res.is_valid() else 'issues'
